@@ -139,3 +139,7 @@ E("eq-removeoverlap-sorted-copy", ["C01", "C02", "C03", "C06"], (RO, "    nodes.
 E("eq-int2name-divmod", ["C20"], (UT, "        mod = (div - 1) % 26\n        name = chr(65 + mod) + name\n        div = (div - mod) // 26", "        div, mod = divmod(div - 1, 26)\n        name = chr(65 + mod) + name"))
 E("eq-day-floor-via-replace", ["C17", "C16"], (DT, "    lambda date: datetime(date.year, date.month, date.day),", "    lambda date: date.replace(hour=0, minute=0, second=0, microsecond=0),"))
 E("eq-dict-copy-options", ["C10", "C07"], (TL, "        self.options = {k: v for k, v in DEFAULT_OPTIONS.items()}", "        self.options = dict(DEFAULT_OPTIONS)"))
+
+# ---- history-dependent scale state (needs scale-object reuse in the workload) --------------
+M("c16-instance-tick-memo-not-invalidated", ["C16", "C07"], (SC, "    def ticks(self, interval=None, skip=None):\n        extent = d3_scaleExtent(self.domain())", "    def ticks(self, interval=None, skip=None):\n        memo = self.__dict__.setdefault(\"_tick_memo\", {})\n        if (interval, skip) in memo:\n            return memo[(interval, skip)]\n        memo[(interval, skip)] = self._ticks(interval, skip)\n        return memo[(interval, skip)]\n\n    def _ticks(self, interval=None, skip=None):\n        extent = d3_scaleExtent(self.domain())"))
+M("c13-tickformat-memo-by-count", ["C13"], (SC, "    def tickFormat(self, m=None, fmt=None):\n        return d3_scale_linearTickFormat(self._domain, m, fmt)", "    def tickFormat(self, m=None, fmt=None):\n        memo = self.__dict__.setdefault(\"_fmt_memo\", {})\n        if m not in memo:\n            memo[m] = d3_scale_linearTickFormat(self._domain, m, fmt)\n        return memo[m]"))
